@@ -19,8 +19,8 @@
        invariant under multiplication of all weights by c <> 0                        [C15_weighted_*, C15_lda_weight_*]
      * for ANY linear model W x + b: mean and covariance of the outputs on the training data are
        W mean + b and W C W^T                                                          [C15_lin_mean, C15_lin_cov]
-   PROVED CONDITIONALLY (`_partial`: the hypothesis is the contract of a component that is not modelled - remora's
-   symmetric eigen-decomposition and semi-definite solver - and is evaluated on every returned result by the check):
+   PROVED CONDITIONALLY (`_partial`: statements about ANY matrices satisfying the contract of the eigen-decomposition / solver; the
+   contract is evaluated on every returned result by the check; the extension round below connects them to the code as written):
      * whitening / ZCA / whitened PCA: if W C W^T = tv I (which follows from orthonormal eigenpairs,
        C15_whitening_contract_from_eigen) the outputs have mean 0 and covariance tv I  [C15_whitening_identity_partial]
      * ZCA on rank-deficient data (repair 2b5526e7: only the k directions with positive variance are rescaled):
@@ -33,19 +33,48 @@
        eigenvalue                                                                      [C15_pca_*]
      * LDA: with z_c C = m_c the linear score z_c.x - m_c.z_c/2 equals the Gaussian exponent
        -(x-m_c)^T C^-1 (x-m_c)/2 up to a class-independent term                        [C15_lda_rule_partial]
-   ONLY COMPARED / MONITORED by tools/c15.py (not proved): floating-point rounding; that the eigen-decomposition /
-   solver fulfil their contract (evaluated exactly on the returned parameters: gradient, output mean/covariance,
-   Gram matrix, eigen-equation and solver residuals); "non-increasing variances"; the small-sample branch of
-   PCA::setData; FisherLDA; exceptions on inputs outside the preconditions.
+   EXTENSION ROUND (models that follow the code statement by statement, run next to the C++ on every check):
+     * PCA::setData AS CODED, both branches, encoder()/decoder() incl. whitening and the m-components cut (C15PcaModel.v; the symmetric
+       eigen-decomposition is an explicit ORACLE with the contract eig_contract = orthogonal Q (Q^T Q = I and Q Q^T = I), S q_i = D_i q_i,
+       D non-increasing).  IF the oracle fulfils the contract on the matrix it is handed (covariance, resp. X0 X0^T / n in the
+       small-sample branch n < d), the square root is exact on the values met and (small-sample branch) the eigenvalues not above the
+       rounding threshold d*eps*max(D(0),0) are exactly 0, THEN the returned columns are orthonormal, are eigenvectors of the COVARIANCE
+       matrix, the returned eigenvalues are the oracle's (same non-zero eigenvalues; the completed directions of the repair 3057e109 have
+       eigenvalue 0) and are non-increasing   [C15_pca_setdata_correct, C15_pca_small_sample_correct];
+       the pair built by encoder(m)/decoder(m) is the orthogonal projection (the C15_pca_* statements for the matrices/offsets as coded);
+       with whitening: identity on the codes kept, projection onto the directions kept, whitened codes have mean 0 / variance 1
+                                                   [C15_pca_coded_projection, C15_pca_coded_whitening, C15_pca_whitened_code_variance]
+     * LinearRegression::train AS CODED incl. the solver step (C15SolveModel.v; the solver is the imported, proved C02 model of
+       solve(.,.,symm_semi_pos_def): pstrf, potrf of L^T L, substitutions): the RETURNED weights have vanishing gradient of the
+       regularised squared error for every lambda >= 0, singular X^T X included (least-squares solution)
+                                                                                    [C15_linreg_train_zero_gradient]
+     * LDA::train AS CODED, both overloads (class means, priors, one-pass pooled covariance, solve, bias): every returned row z_c solves
+       the normal equations C (C z_c - m_c) = 0; bias part = -<m_c,z_c>/2; for a regular C: C z_c = m_c = z_c C and the score is the
+       exponent of the estimated Gaussian (C15_lda_rule_partial with its hypothesis discharged); a class without examples raises the
+       exception (model: None)                     [C15_lda_train_rule, C15_lda_train_weighted_rule, C15_lda_cov_symmetric]
+     * NormalizeComponentsZCA::train AS CODED (C15ZcaModel.v, same oracle device): under the oracle's contract on the covariance matrix,
+       exact roots and "eigenvalues not above the threshold d*eps*max(D) are 0": output mean 0, output covariance tv * P with P the
+       projector onto the k directions of positive variance, P = I for full rank                     [C15_zca_train_correct]
+       HYPOTHESIS THAT REMAINS for LinearRegression / LDA: semi_exact = the pivoted Cholesky factorisation run by the solver's constructor
+       is exact: square root exact on the pivots met, ZERO Schur complement at the stop (the rank found is the exact rank), potrf of
+       L^T L succeeds with exact roots.  Satisfiable: linreg_train_hyp_satisfiable (a singular system), lda_train_hyp_satisfiable.
+   ONLY COMPARED / MONITORED by tools/c15.py (not proved): floating-point rounding; that the eigen-decomposition fulfils its contract
+   (evaluated on every run on the values the real decomposition returned, which are also handed to the extracted model as the oracle's
+   answer) and that the solver's factorisation is exact (semi_exact; the extracted LinearRegression / LDA models incl. the C02 solver
+   model are run exactly over Qc where every root met is rational - generated designs X = H T^T - and in double arithmetic otherwise);
+   NormalizeComponentsWhitening as coded (symm_pos_semi_definite_solver::compute_inverse_factor is not modelled; contract form above only);
+   FisherLDA; exceptions on inputs outside the preconditions;
+   the block-wise filling of X0 X0^T over the pairs of batches (index book-keeping; several partitions are run).
    OPEN FINDINGS reported by the check under stable keys (see known_findings.json): FisherLDA::train:criterion
    (symmetric eigen-decomposition of the non-symmetric Sw^-1 Sb), LDA::train(weighted):solve:singular (one-pass
-   covariance: cancellation noise taken for a pivot when the pooled covariance is singular and lambda = 0).
-   FULL-STRENGTH statements not proved: "PCA::setData returns orthonormal eigenvectors with non-increasing
-   eigenvalues for every dataset" and "LDA returns z_c = C^+ m_c for every (singular) C" would need a verified
-   eigen-solver. *)
+   covariance: cancellation noise taken for a pivot when the pooled covariance is singular and lambda = 0 - this is exactly a run
+   where semi_exact fails in floating point: the Schur complement at the stop is rounding noise, not zero).
+   FULL-STRENGTH statements not proved: "PCA::setData returns orthonormal eigenvectors with non-increasing eigenvalues for every
+   dataset" needs a verified eigen-solver (the oracle); "LDA / LinearRegression return the least-squares solution for every dataset"
+   needs, beyond C02, that pstrf stops exactly at the rank in exact arithmetic for every positive semi-definite matrix (semi_exact). *)
 From Coq Require Import List Arith Bool QArith Lia Lqa.
 From SharkV Require Import ListAux C03Model C15Model C15Aux C15Proofs C15ProofsLin C15ProofsZca.
-From SharkV Require Import C15PcaModel C15PcaProofs C15PcaExample.
+From SharkV Require Import C15PcaModel C15PcaProofs C15PcaExample C15ZcaModel C15ZcaCodedProofs.
 Import ListNotations.
 Open Scope Q_scope.
 
@@ -355,6 +384,42 @@ Theorem C15_pca_whitened_code_variance : forall sq cut d m V ev a (D : @data (li
   mean (lin d (fst E) (snd E) a) D == 0 /\ var (lin d (fst E) (snd E) a) D == 1.
 Proof. exact wh_code_variance. Qed.
 Print Assumptions C15_pca_whitened_code_variance.
+
+(* ================= extension: NormalizeComponentsZCA::train AS CODED (C15ZcaModel.v / C15ZcaCodedProofs.v) ================= *)
+(* same oracle device: IF the eigen-decomposition fulfils eig_contract on the covariance matrix, sqrt is exact on the values met
+   (eigenvalues above the threshold, target variance) and the eigenvalues not above the rounding threshold d*eps*max(D) are exactly 0,
+   THEN with k = number of eigenvalues above the threshold (a prefix, the order comes from the contract) the trained model sends the
+   training data to mean 0 and covariance tv * P, P = U_k U_k^T symmetric idempotent (the projector onto the directions of positive
+   variance), P = I for k = d.  (C15_zca_rank_deficient_projector_partial with its hypotheses discharged from the code + contract.) *)
+Theorem C15_zca_train_correct : forall sq eig epsm d tv (D : @data (list Q)),
+  let U := fst (eig d (pca_cov d D)) in
+  let Dv := snd (eig d (pca_cov d D)) in
+  let thr := zca_threshold epsm d Dv in
+  let k := nact Dv thr d in
+  (d < nelems D)%nat -> (0 < d)%nat -> 0 <= epsm ->
+  eig_contract d (pca_cov d D) U Dv ->
+  (forall i, (i < d)%nat -> Dv i <= thr -> Dv i == 0) ->
+  Forall (fun v => sq v * sq v == v) (zca_met epsm d tv Dv) ->
+  forall W off met, zca_train sq eig epsm d tv D = Some (W, off, met) ->
+  (k <= d)%nat /\ (forall i, (i < k)%nat -> thr < Dv i) /\ (forall i, (k <= i < d)%nat -> Dv i == 0) /\
+  forall a c,
+    mean (lin d W off a) D == 0 /\
+    cov (lin d W off a) (lin d W off c) D == tv * proj k U a c /\
+    proj k U a c == proj k U c a /\
+    sumn d (fun j => proj k U a j * proj k U j c) == proj k U a c /\
+    (k = d -> (a < d)%nat -> (c < d)%nat -> proj k U a c == delta a c).
+Proof. exact zca_train_correct. Qed.
+Print Assumptions C15_zca_train_correct.
+
+(* the four points (+-2, +-1): covariance diag(4,1), oracle (identity, (4,1)), target variance 1: all hypotheses hold *)
+Example zca_train_hyp_satisfiable :
+  let Dv := snd (ex_zca_eig 2 (pca_cov 2 ex_zca_data)) in
+  (2 < nelems ex_zca_data)%nat /\ 0 <= (1 # 4503599627370496) /\
+  eig_contract 2 (pca_cov 2 ex_zca_data) (fst (ex_zca_eig 2 (pca_cov 2 ex_zca_data))) Dv /\
+  (forall i, (i < 2)%nat -> Dv i <= zca_threshold (1 # 4503599627370496) 2 Dv -> Dv i == 0) /\
+  Forall (fun v => ex_zca_sq v * ex_zca_sq v == v) (zca_met (1 # 4503599627370496) 2 1 Dv) /\
+  exists W off met, zca_train ex_zca_sq ex_zca_eig (1 # 4503599627370496) 2 1 ex_zca_data = Some (W, off, met).
+Proof. exact ex_zca_hypotheses. Qed.
 
 From Coq Require Import Qcanon.
 From SharkV Require Import C02Model C02Proofs C02BlkModel C02LUProofs C02Q C02QProofs C02PstrfModel C02PstrfProofs C02PstrfQProofs C02SemiModel C02SemiProofs.
